@@ -21,6 +21,8 @@ type c20 struct{}
 
 func init() { engine.Register(c20{}) }
 
+func (c20) PostGenerate(r *engine.Rand, sc *engine.Scenario) { chooseEnv(r, sc) }
+
 func (c20) ID() string { return "C20" }
 
 func (c20) Budget(tier string) int {
@@ -150,7 +152,7 @@ func c20Run(sc *engine.Scenario, res *engine.Result, altSeed uint64, judge bool)
 		return nil
 	}
 	m.Write(0xff40, 0)
-	m.Park()
+	park(sc, m, res)
 	var alt *engine.Rand
 	if altSeed != 0 {
 		alt = engine.NewRand(altSeed)
@@ -337,6 +339,23 @@ func (c20) Execute(sc *engine.Scenario) *engine.Result {
 			}
 		}
 	}
+	// the stream neither starts late nor dries up: with sound on, the first pair comes within two sample
+	// periods of the start and the last one within two sample periods of the end of the run
+	{
+		end := sc.Cycles
+		first, last := end, uint64(0)
+		if len(base) > 0 {
+			first, last = base[0].cycle, base[len(base)-1].cycle
+		}
+		switch {
+		case !isOff(1) && !isOff(first) && first > 48 && (len(offs) == 0 || offs[0].from > 48):
+			res.Fail("C20/pacing/no-samples", first, "sound is on from the start but the first sample pair came at machine cycle %d (of %d): more than two sample periods (190 clocks) without a sample", first, end)
+			return res
+		case on && end > last+48 && (len(offs) == 0 || offs[len(offs)-1].to+48 < end):
+			res.Fail("C20/pacing/stream-stops", last, "sound is on but no sample pair came after machine cycle %d although the run went on to cycle %d", last, end)
+			return res
+		}
+	}
 	playing := 0
 	switch sc.Class {
 	case "stall":
@@ -409,7 +428,7 @@ func c20Stalled(sc *engine.Scenario, res *engine.Result) ([]c20Sample, string) {
 		return nil, pi.Value
 	}
 	m.Write(0xff40, 0)
-	m.Park()
+	park(sc, m, res)
 	ei := 0
 	m.OnCycle = func() {
 		for ei < len(sc.Events) && sc.Events[ei].At <= m.N {
